@@ -187,4 +187,153 @@ theorem parseMap_weak (fk : Str → Res Key) (fv : Js → Res Val) {kvs : List (
             find?_none_of_not_mem key ys (by rw [hks]; exact hd.1)
           exact ⟨(key, y) :: ys, by simp [parseMapWith, hk, hy, hys, hfind], by simp [canonKVs, hc, hcs], by simp [hks]⟩
 
+
+/-! ### which field takes which key -/
+
+theorem distinct_iff_nodup {α : Type} [BEq α] [LawfulBEq α] : ∀ (l : List α), distinct l = true ↔ l.Nodup
+  | [] => by simp [distinct]
+  | x :: xs => by
+    simp only [distinct, Bool.and_eq_true, Bool.not_eq_eq_eq_not, Bool.not_true, List.nodup_cons, distinct_iff_nodup xs]
+    constructor
+    · intro h; exact ⟨by simpa using h.1, h.2⟩
+    · intro h; exact ⟨by simpa using h.1, h.2⟩
+
+theorem distinct_of_sublist {α : Type} [BEq α] [LawfulBEq α] {l₁ l₂ : List α} (h : l₁.Sublist l₂)
+    (hd : distinct l₂ = true) : distinct l₁ = true :=
+  (distinct_iff_nodup l₁).mpr (((distinct_iff_nodup l₂).mp hd).sublist h)
+
+theorem filter_key_mem {β : Type} : ∀ (l : List (Str × β)) (n : Str) (j : β), distinct (l.map (·.1)) = true →
+    (n, j) ∈ l → l.filter (fun kv => kv.1 == n) = [(n, j)]
+  | [], _, _, _, h => by simp at h
+  | (k, v) :: r, n, j, hd, h => by
+    simp only [List.map_cons, distinct, Bool.and_eq_true] at hd
+    have hnot : ∀ w, (k, w) ∉ r := by
+      intro w hw
+      have : (r.map (·.1)).contains k = true := by
+        simp only [List.contains_iff_mem]; exact List.mem_map.mpr ⟨(k, w), hw, rfl⟩
+      rw [this] at hd; simp at hd
+    rcases List.mem_cons.mp h with h | h
+    · injection h with h1 h2; subst h1; subst h2
+      have : r.filter (fun kv => kv.1 == n) = [] := by
+        rw [List.filter_eq_nil_iff]
+        intro kv hkv hk
+        have : kv.1 = n := by simpa using hk
+        exact hnot kv.2 (by rw [← this]; exact hkv)
+      simp [List.filter, this]
+    · have hne : (k == n) = false := by
+        cases hk : k == n with
+        | false => rfl
+        | true => have : k = n := by simpa using hk
+                  subst this; exact absurd h (hnot j)
+      simp [List.filter, hne, filter_key_mem r n j hd.2 h]
+
+theorem filter_key_not_mem {β : Type} (l : List (Str × β)) (n : Str) (h : n ∉ l.map (·.1)) :
+    l.filter (fun kv => kv.1 == n) = [] := by
+  rw [List.filter_eq_nil_iff]
+  intro kv hkv hk
+  have : kv.1 = n := by simpa using hk
+  exact h (List.mem_map.mpr ⟨kv, hkv, this⟩)
+
+/-- the declaration resolves its own output names (`keysAccepted`), the object's keys are output names of the
+declaration and distinct: a field finds exactly the member written under its own name -/
+theorem findValue_present (ms : List FieldMeta) (df : Bool) (hka : keysAccepted ms df = true)
+    (all : List (Str × Js)) (hkeys : ∀ kv ∈ all, ∃ g ∈ ms, g.name = kv.1) (hdist : distinct (all.map (·.1)) = true)
+    (f : FieldMeta) (hf : f ∈ ms) (j : Js) (hj : (f.name, j) ∈ all) :
+    findValue (takes ms df f) all = .one j := by
+  have hfil : all.filter (fun kv => takes ms df f kv.1) = all.filter (fun kv => kv.1 == f.name) := by
+    apply List.filter_congr
+    intro kv hkv
+    obtain ⟨g, hg, hgn⟩ := hkeys kv hkv
+    simp only [keysAccepted, List.all_eq_true] at hka
+    have := hka f hf g hg
+    rw [← hgn]
+    have e : takes ms df f g.name = (f.name == g.name) := by simpa using this
+    rw [e]
+    exact Bool.eq_iff_iff.mpr ⟨fun h => by simpa using (by simpa using h : f.name = g.name).symm,
+      fun h => by simpa using (by simpa using h : g.name = f.name).symm⟩
+  simp [findValue, hfil, filter_key_mem all f.name j hdist hj]
+
+theorem findValue_absent (ms : List FieldMeta) (df : Bool) (hka : keysAccepted ms df = true)
+    (all : List (Str × Js)) (hkeys : ∀ kv ∈ all, ∃ g ∈ ms, g.name = kv.1)
+    (f : FieldMeta) (hf : f ∈ ms) (hj : f.name ∉ all.map (·.1)) :
+    findValue (takes ms df f) all = .absent := by
+  have hfil : all.filter (fun kv => takes ms df f kv.1) = all.filter (fun kv => kv.1 == f.name) := by
+    apply List.filter_congr
+    intro kv hkv
+    obtain ⟨g, hg, hgn⟩ := hkeys kv hkv
+    simp only [keysAccepted, List.all_eq_true] at hka
+    have := hka f hf g hg
+    rw [← hgn]
+    have e : takes ms df f g.name = (f.name == g.name) := by simpa using this
+    rw [e]
+    exact Bool.eq_iff_iff.mpr ⟨fun h => by simpa using (by simpa using h : f.name = g.name).symm,
+      fun h => by simpa using (by simpa using h : g.name = f.name).symm⟩
+  simp [findValue, hfil, filter_key_not_mem all f.name hj]
+
+/-! ### output properties see only ints and strs, which have one representation -/
+
+theorem intOf_canon {x y : Val} (h : y.canon = x.canon) : intOf y = intOf x := by
+  cases x <;> cases y <;> simp_all [Val.canon, intOf]
+
+theorem strOf_canon {x y : Val} (h : y.canon = x.canon) : strOf y = strOf x := by
+  cases x <;> cases y <;> simp_all [Val.canon, strOf]
+
+theorem lookup_canon (d : Str) : ∀ (a b : List (Str × Val)), canonFields a = canonFields b →
+    (lookup d a).map Val.canon = (lookup d b).map Val.canon
+  | [], [], _ => rfl
+  | [], _ :: _, h => by obtain ⟨_, _⟩ := ‹Str × Val›; simp [canonFields] at h
+  | _ :: _, [], h => by obtain ⟨_, _⟩ := ‹Str × Val›; simp [canonFields] at h
+  | (k, x) :: a, (k', y) :: b, h => by
+    simp only [canonFields, List.cons.injEq, Prod.mk.injEq] at h
+    obtain ⟨⟨hk, hxy⟩, hr⟩ := h
+    subst hk
+    by_cases hkd : (k == d) = true
+    · simp [lookup, hkd, hxy]
+    · simp [lookup, hkd, lookup_canon d a b hr]
+
+theorem evalProp_canon (e : PropExpr) (a b : List (Str × Val)) (h : canonFields a = canonFields b) :
+    evalProp a e = evalProp b e := by
+  have hi : ∀ d, (lookup d a).bind intOf = (lookup d b).bind intOf := by
+    intro d
+    have := lookup_canon d a b h
+    cases ha : lookup d a <;> cases hb : lookup d b <;> simp_all
+    exact intOf_canon this
+  have hs : ∀ d, (lookup d a).bind strOf = (lookup d b).bind strOf := by
+    intro d
+    have := lookup_canon d a b h
+    cases ha : lookup d a <;> cases hb : lookup d b <;> simp_all
+    exact strOf_canon this
+  cases e with
+  | sumInt deps =>
+    have : sumInts a deps = sumInts b deps := by
+      induction deps with
+      | nil => rfl
+      | cons d ds ih => simp [sumInts, hi d, ih]
+    simp [evalProp, this]
+  | concat deps =>
+    have : concatStrs a deps = concatStrs b deps := by
+      induction deps with
+      | nil => rfl
+      | cons d ds ih => simp [concatStrs, hs d, ih]
+    simp [evalProp, this]
+
+theorem beq_int {x : Val} {i : Int} (h : x.beq (.int i) = true) : x = .int i := by
+  cases x <;> simp_all [Val.beq]
+
+theorem beq_str {x : Val} {s : Str} (h : x.beq (.str s) = true) : x = .str s := by
+  cases x <;> simp_all [Val.beq]
+
+theorem beq_lit {x : Val} {l : Lit} (h : x.beq l.toVal = true) : x = l.toVal := by
+  cases l <;> cases x <;> simp_all [Val.beq, Lit.toVal]
+
+theorem evalProp_scalar {items : List (Str × Val)} {e : PropExpr} {v : Val} (h : evalProp items e = some v) :
+    (∃ i, v = .int i) ∨ (∃ s, v = .str s) := by
+  cases e with
+  | sumInt deps =>
+    simp only [evalProp, Option.map_eq_some_iff] at h
+    obtain ⟨i, _, rfl⟩ := h; exact Or.inl ⟨i, rfl⟩
+  | concat deps =>
+    simp only [evalProp, Option.map_eq_some_iff] at h
+    obtain ⟨s, _, rfl⟩ := h; exact Or.inr ⟨s, rfl⟩
+
 end Utv.C14
